@@ -17,6 +17,7 @@ type Query struct {
 	Solver  string
 	Secs    float64
 	Model   string
+	Cover   bool
 	Values  []string // terms whose values to fetch on sat
 	Inputs  map[string]string
 }
@@ -71,7 +72,7 @@ func (x *Exec) emit(st *State, name, kind string, goal Tm, desc string) {
 func (x *Exec) emitCover(st *State, name string, desc string) {
 	o := x.obligation(name, "cover")
 	o.ExpectSat = true
-	q := &Query{Desc: desc, Path: x.paths}
+	q := &Query{Desc: desc, Path: x.paths, Cover: true}
 	// reachability is checked without the quantified axioms of pure functions (their
 	// consistency is the business of those functions' own obligations); this keeps
 	// "sat" answers cheap.
